@@ -94,6 +94,14 @@ CLAIMED = {
                   "every vertex, index, sub-mesh, raw stream and name is recomputed by TLC from the same bytes.",
              note="Trusts TLC, gen/mdl.py (layout recalled from public docs; accepted by the library), gen/float_tables.py; NaN payloads unconstrained.",
              ref="5 C06"),
+ "C07": dict(cat="model_checking", tech="TLC model checking of the model-under-edit state machine (header recomputation invariants over all edit orders) + transition-cover replay + TLC trace validation of every written file",
+             text="MdlEdit.tla models meshes under replace / add-shape / remove-shapes with the header recomputation as designed; TLC checks sections disjoint, in "
+                  "bounds, count x stride, 16-padded, streams tiling and mesh index ranges over every history of <= 3 edits (268k states). Histories sampled from "
+                  "its transition cover, random histories up to 65535 vertices, unedited writes for every writable encoding, codec sweeps over every finite half "
+                  "and byte, and the sample model are executed on the real MDL; after every settled edit TLC re-reads the written bytes with Mdl.tla's reference "
+                  "reader, checks the same conditions on the real header and that written and re-parsed geometry equal what was supplied.",
+             note="Trusts TLC, gen/mdl.py; meshes above 2000 vertices are compared by the shim's bit-exact echo test; version 5 only (README declares Dawntrail writes broken).",
+             ref="5 C07"),
 }
 HOOK_COMMITS = ["5eeb305"]
 REASON_PENDING = "check not built yet in this session (see DESIGN.md section 5); will be claimed when its trace specification exists"
